@@ -27,6 +27,15 @@ Statement -> serviceTxPkts:
   c35_only_failed_left every duple still queued afterwards has a destination whose send failed in THIS call
                        (a failing destination never blocks packets to other destinations);
   C25: a send error that does not propagate was transient (nhard unchanged); any other errno propagates.
+serviceTxPktsOnce: same bijection and order clauses (the deferred head must go back to the FRONT of the queue:
+  loop invariant and witness are written for `self.txPkts.appendleft(laters.pop())`); transmit: appended at the back.
+Receive side (C25 only): _serviceOneReceived - transient errno => returns False, no raise, .rxPkts unchanged; any
+  other errno propagates; parserize (callee) verified against the base packeting.Packet.
+
+Findings on the tree as of 2026-09-22 (native demonstrations findings/c35_reorder.py, findings/c25_gram_receive.py):
+  serviceTxPkts breaks at the first already-blocked destination (reorders a destination, blocks the others);
+  serviceTxPktsOnce requeues a transiently failed head at the BACK (A1 A2 A3 -> sent A2 A3 A1);
+  _serviceOneReceived compares errno == (tuple): every transient receive error is re-raised.
 """
 from pyvc.api import *
 from pyvc import builtins_ as B
